@@ -47,52 +47,48 @@ def _ret(fn):
 
 def rule_fielddef(prog, rep):
     rep.floor("C18.FIELDDEF", 5)
-    fn, hb = _hb(prog, r"^%sfrom_ast::<impl apollo_compiler::executable::SelectionSet>::extend_from_ast$" % E)
-    sc = Scope(hb)
-    fnew = calls(hb["body"], "executable::Field::new")
-    if len(fnew) != 1:
-        raise Undecided("extend_from_ast: expected one Field::new (found %d)" % len(fnew))
-    k0, k1 = sc.key(fnew[0]["args"][0]), sc.key(fnew[0]["args"][1])
-    m0 = re.fullmatch(r"(ast#\d+)\.name\.clone\(\)", k0)
-    m1 = re.fullmatch(r"field_def#(\d+)", k1) or re.fullmatch(r"(\w+)#(\d+)", k1)
-    ok = bool(m0 and m1)
-    src = None
-    if ok:
-        did = int(k1.split("#")[1])
-        # field_def is bound by the Ok(..) arm of a match on a local whose let is the schema lookup
-        arms = []
-        for n in walk(hb["body"]):
-            if n.get("k") == "match":
-                for arm in n["arms"]:
-                    if any(q.get("k") == "bind" and q["id"] == did for q in walk(arm["pat"])):
-                        arms.append((n, arm))
-        ok = len(arms) == 1 and any(q.get("k") == "tstruct" and q["res"][2].endswith("Ok") for q in walk(arms[0][1]["pat"]))
-        if ok:
-            scr = arms[0][0]["scrut"]
-            ok = scr.get("k") == "path" and scr["res"][0] == "local" and scr["res"][2] in sc.lets
-            if ok:
-                init = sc.lets[scr["res"][2]]["init"]
-                ok = init.get("k") == "if" and init["cond"].get("k") == "let" and sc.key(init["cond"]["init"]) == "param:schema"
-                if ok:
-                    src = sc.key(init["then"])
-                    want = r"s#\d+\.type_field\(param:self\.ty, %s\.name\)\.map\(<closure>\)" % re.escape(m0.group(1))
-                    ok = re.fullmatch(want, src) is not None
-                    if ok:
-                        cl = [x for x in walk(init["then"]) if x.get("k") == "closure"]
-                        ok = len(cl) == 1 and re.fullmatch(r"param:\w+\.node\.clone\(\)", Scope({"params": cl[0]["params"], "body": cl[0]["body"]}).key(cl[0]["body"])) is not None
+    from ..flow import derives
+    fn0 = prog.fn(r"^%sfrom_ast::<impl apollo_compiler::executable::SelectionSet>::extend_from_ast$" % E)
+    # read on the resolved MIR with private helpers folded in (a per-selection helper such as
+    # `extend_from_ast_field` is part of the same lowering)
+    fn = prog.inline(fn0, keep=r"::(extend_from_ast|with_ast_selections|type_field|new|push|new_inline_fragment|new_fragment_spread)$")
+    NODE = r"(<Iter<'a, T> as Iterator>::next\(.*?\)\.as:Some\.0\.as:(Field|InlineFragment|FragmentSpread)\.0)"
+    fnew = [c for c in fn.live_calls() if c.name.endswith("executable::Field::new")]
+    if not fnew:
+        raise Undecided("extend_from_ast: no call of Field::new")
+    ok = True
+    why = ""
+    for c in fnew:
+        m0 = re.search(NODE + r"\)\.name\)$", fn.sym(c.args[0]))
+        if not m0 or m0.group(2) != "Field":
+            ok, why = False, "the name given to Field::new is `%s`" % fn.sym(c.args[0])[-80:]
+            break
+        _, via = derives(fn, c.args[1], maxn=2000)
+        tf = [x for x in via if x.name.endswith("Schema::type_field")]
+        if not tf:
+            ok, why = False, "the definition given to Field::new does not come from Schema::type_field"
+            break
+        for x in tf:
+            a1, a2 = fn.sym(x.args[1]), fn.sym(x.args[2])
+            if not re.search(r"&arg1\.ty\)?$", a1) or not (m0.group(1) in a2 and re.search(r"\)\.name\)$", a2)):
+                ok, why = False, "Schema::type_field is asked for (%s, %s)" % (a1[-40:], a2[-60:])
     rep.obligation(ok)
     if ok:
         rep.instance("C18.FIELDDEF", "extend_from_ast: Field::new(ast.name, schema.type_field(&self.ty, &ast.name)) - definition looked up on the parent type for the same field")
     else:
-        rep.finding("C18.FIELDDEF", fn.name, "definition", "the definition given to Field::new(%s, %s) is not schema.type_field(&self.ty, &<same ast>.name) (source: %s)" % (k0, k1, src), fn.loc())
+        rep.finding("C18.FIELDDEF", fn.name, "definition", "the definition given to Field::new is not schema.type_field(&self.ty, &<same ast>.name): %s" % why, fn.loc())
     # sub-selections go to the new field's / fragment's own selection set
-    was = mcalls(hb["body"], "with_ast_selections")
-    ok = len(was) == 2
-    for m in was:
-        r = sc.key(m["recv"])
-        a = [sc.key(x) for x in m["args"]]
-        ast = re.search(r"(ast#\d+)", r)
-        ok = ok and ast is not None and a == ["param:schema", "param:errors", ast.group(1) + ".selection_set"]
+    was = [c for c in fn.live_calls() if c.name.endswith("::with_ast_selections")]
+    kinds = set()
+    ok = len(was) >= 2
+    for c in was:
+        r = re.search(NODE, fn.sym(c.args[0]))
+        a3 = re.search(NODE + r"\)\.selection_set\)?$", fn.sym(c.args[3]))
+        same = bool(r and a3 and r.group(1) == a3.group(1))
+        ok = ok and same and fn.sym(c.args[1]).lstrip("&") == "arg2" and fn.sym(c.args[2]).lstrip("&") == "arg3"
+        if r:
+            kinds.add(r.group(2))
+    ok = ok and kinds == {"Field", "InlineFragment"}
     rep.obligation(ok)
     if ok:
         rep.instance("C18.FIELDDEF", "extend_from_ast: the field's / inline fragment's own ast.selection_set is converted into its own selection set, with the same schema")
@@ -143,43 +139,35 @@ def rule_inline(prog, rep):
             rep.instance("C18.INLINE", "InlineFragment::%s types its selection set by its argument" % nm)
         else:
             rep.finding("C18.INLINE", g.name, "shape", "InlineFragment::%s builds `%s`" % (nm, (rows[0][1] if rows else "?")[:160]), g.loc())
-    fn, hb = _hb(prog, r"^%sfrom_ast::<impl apollo_compiler::executable::SelectionSet>::extend_from_ast$" % E)
-    sc = Scope(hb)
-    nif = mcalls(hb["body"], "SelectionSet::new_inline_fragment")
-    ok = len(nif) == 1 and sc.key(nif[0]["recv"]) == "param:self"
-    if ok:
-        a = nif[0]["args"][0]
-        k = sc.key(a)
-        m = re.fullmatch(r"opt_type_condition#(\d+)|\w+#(\d+)", k)
-        ok = m is not None
-        if ok:
-            lid = int(k.split("#")[1])
-            ok = lid in sc.lets and re.fullmatch(r"ast#\d+\.type_condition\.clone\(\)", sc.key(sc.lets[lid]["init"])) is not None
+    # read on the resolved MIR (helpers folded in): the spelling of the surrounding `if let` /
+    # `match` / temporaries does not matter
+    from ..flow import derives
+    fn0 = prog.fn(r"^%sfrom_ast::<impl apollo_compiler::executable::SelectionSet>::extend_from_ast$" % E)
+    fn = prog.inline(fn0, keep=r"::(extend_from_ast|with_ast_selections|type_field|new|push|new_inline_fragment|new_fragment_spread)$")
+    nif = [c for c in fn.live_calls() if c.name.endswith("SelectionSet::new_inline_fragment")]
+    ok = len(nif) >= 1
+    for c in nif:
+        ok = ok and fn.sym(c.args[0]).lstrip("&") == "arg1" and re.search(r"\.as:InlineFragment\.0\)\.type_condition\)$", fn.sym(c.args[1])) is not None
     rep.obligation(ok)
     if ok:
         rep.instance("C18.INLINE", "extend_from_ast: self.new_inline_fragment(ast.type_condition.clone())")
     else:
         rep.finding("C18.INLINE", fn.name, "condition", "inline fragments are not created from the parent selection set with the AST's own type condition", fn.loc())
-    fr, hb = _hb(prog, r"^%sfrom_ast::<impl apollo_compiler::executable::Fragment>::from_ast$" % E)
-    sc = Scope(hb)
-    ss = calls(hb["body"], "SelectionSet::new")
-    ok = len(ss) == 1 and sc.key(ss[0]["args"][0]) == "param:ast.type_condition.clone()"
+    fr = prog.inline(prog.fn(r"^%sfrom_ast::<impl apollo_compiler::executable::Fragment>::from_ast$" % E), keep=r"::(extend_from_ast|new)$")
+    ss = [c for c in fr.live_calls() if c.name.endswith("executable::SelectionSet::new")]
+    ok = len(ss) == 1 and re.fullmatch(r"<Name as Clone>::clone\(&\(?\*?arg3\)?\.type_condition\)", fr.sym(ss[0].args[0])) is not None
     rep.obligation(ok)
     if ok:
         rep.instance("C18.INLINE", "Fragment::from_ast: selection set typed by ast.type_condition")
     else:
-        rep.finding("C18.INLINE", fr.name, "type", "a named fragment's selection set is not typed by its type condition", fr.loc())
-    op, hb = _hb(prog, r"^%sfrom_ast::<impl apollo_compiler::executable::Operation>::from_ast$" % E)
-    sc = Scope(hb)
-    ss = calls(hb["body"], "SelectionSet::new")
+        rep.finding("C18.INLINE", fr.name, "type", "a named fragment's selection set is not typed by its type condition (`%s`)" % (fr.sym(ss[0].args[0])[:80] if ss else "no SelectionSet::new"), fr.loc())
+    op = prog.inline(prog.fn(r"^%sfrom_ast::<impl apollo_compiler::executable::Operation>::from_ast$" % E), keep=r"::(extend_from_ast|new|root_operation|default_type_name)$")
+    ss = [c for c in op.live_calls() if c.name.endswith("executable::SelectionSet::new")]
     ok = len(ss) == 1
     if ok:
-        k = sc.key(ss[0]["args"][0])
-        lid = int(k.split("#")[1]) if re.fullmatch(r"\w+#\d+", k) else None
-        ok = lid in sc.lets
-        if ok:
-            init = sc.lets[lid]["init"]
-            ok = init.get("k") == "if" and "root_operation(param:ast.operation_type)" in "".join(sc.key(x) for x in walk(init["then"]) if x.get("k") == "mcall")
+        _, via = derives(op, ss[0].args[0], maxn=1500)
+        ro = [x for x in via if x.name.endswith("Schema::root_operation")]
+        ok = len(ro) >= 1 and all(re.search(r"arg3\)?\.operation_type$", op.sym(x.args[1])) and re.search(r"arg1", op.sym(x.args[0])) for x in ro)
     rep.obligation(ok)
     if ok:
         rep.instance("C18.INLINE", "Operation::from_ast: selection set typed by schema.root_operation(ast.operation_type)")
